@@ -37,7 +37,9 @@ theorem stepOp_log {s s' : State} {i : Nat} {oc : Outcome} (hs : stepOp s i oc =
         all_goals first
           | exact ⟨_, rfl⟩
           | exact ⟨[], (List.append_nil _).symm⟩
-      · simp at hs
+      · split at hs
+        · simp only [stepRetPanic, Option.some.injEq] at hs; subst hs; exact ⟨_, rfl⟩
+        · simp at hs
     | take pc o add =>
       simp only at hs
       split at hs
@@ -51,7 +53,9 @@ theorem stepOp_log {s s' : State} {i : Nat} {oc : Outcome} (hs : stepOp s i oc =
         all_goals first
           | exact ⟨_, rfl⟩
           | exact ⟨[], (List.append_nil _).symm⟩
-      · simp at hs
+      · split at hs
+        · simp only [stepTakePanic, Option.some.injEq] at hs; subst hs; exact ⟨_, rfl⟩
+        · simp at hs
     | resize n c pc old =>
       simp only at hs
       split at hs
